@@ -1235,6 +1235,7 @@ class Interp:
                 n = seen.get(st.targets[0].id, 0)
                 if ordinal is not None and ordinal != self._assign_ordinal(fr, st):
                     continue
+                self.ctx.ghost.setdefault("_after_fired", set()).add((st.targets[0].id, ordinal))
                 label = "%s/lemma@%s" % (self._cur_label if fr.depth == 0 else fr.qualname, st.targets[0].id)
                 for nm, g in named(_aslist(f(self.state_view(fr, None, None))), "lemma"):
                     self.ctx.prove("%s:%s" % (label, nm), g, st, "lemma")
